@@ -478,6 +478,8 @@ fn armor_family(ctx: &mut Ctx, n: usize) {
     let mut hdrs = Headers::new();
     hdrs.insert("Comment".to_string(), vec!["first comment".to_string(), "second: comment".to_string()]);
     hdrs.insert("Version".to_string(), vec!["harness 1".to_string()]);
+    // an empty value that is not the first header line (seed C10_5: `Key:` without the blank is read as part of the previous key)
+    hdrs.insert("X-Empty".to_string(), vec![String::new()]);
     let empty_hdrs = Headers::new();
     let typs = [BlockType::Message, BlockType::File, BlockType::Signature];
 
